@@ -3,14 +3,14 @@ PROP = {
     "harness": "c01",
     "driver": "c01",
     "n_quick": 3000,
-    "n_thorough": 60000,
+    "n_thorough": 40000,
     "harness_timeout": 3000,
     "trusted": [
         "harness/cmd/c01/s2t: logical-tree generator, construction through the public secs2 constructors (argument shapes drawn from the PRNG), canonical rendering of items through public accessors, independent reference encoder used by the implementation-level oracle",
         "ocaml/c01_driver.ml: case-line parser, expansion of '#seed,count' leaves (same LCG as the harness), MD5 digests for long fields",
     ],
     "assumptions": [
-        "floats are modelled as IEEE-754 bit patterns as they are on the wire (32-bit patterns for F4); the binary64->binary32 narrowing NewFloatItem applies to inexact float64 arguments and the quieting of signalling NaNs by Go's float32<->float64 conversions are outside the model (the generator passes exactly representable values and quiet F4 NaNs; both sides canonicalise F4 NaNs)",
+        "floats are modelled as IEEE-754 bit patterns as they are on the wire (32-bit patterns for F4). The binary64->binary32 rounding Go's float32(v) conversion performs when an F4 item built from an inexact float64 is encoded is NOT modelled in Coq: for such arguments (shape F/inexact64) the harness takes the logical element to be Float32bits(float32(v)) computed by the Go compiler's own conversion. Quieting of signalling NaNs by float32<->float64 conversions is likewise outside the model (the generator uses quiet F4 NaNs; both sides canonicalise F4 NaN patterns). Magnitudes beyond MaxFloat32 (clamping) are C16's subject",
         "well-formedness (wf) excludes an EmptyItem below the root: for that class the statement is refuted (C01_empty_child_refuted, known finding C01-empty-child)",
         "constructor argument conversion/clamping (which Go value denotes which element) is C16's subject; here every argument denotes its element exactly",
     ],
